@@ -67,6 +67,7 @@ Apply(opr, oo) ==
     [] opr[1] = "clear" -> [oo EXCEPT ![s] = ClearR(r)]
     [] opr[1] = "refresh" -> [oo EXCEPT ![s] = RefreshR(r)]
     [] opr[1] = "copy" -> [oo EXCEPT ![opr[3]] = CopyR(r)]
+    [] opr[1] = "new" -> [oo EXCEPT ![s] = NewR(r.kind, opr[3])]
     \* a real constraint method: which terms it adds is free (Constraints.tla decides that); the counter,
     \* the generated names and the number of recorded constraints follow the log
     [] opr[1] = "addcons" -> [oo EXCEPT ![s] = [r EXCEPT !.gen = @ \cup (r.anc..(Steps[l].slots[s].anc - 1)), !.ncons = @ + 1]]
@@ -79,7 +80,7 @@ Apply(opr, oo) ==
     [] opr[1] \in {"ctor", "info"} -> [oo EXCEPT ![opr[3]] = CopyR(r)]
     [] OTHER -> oo
 KnownOp(opr) == opr[1] \in {"setitem", "augadd", "iadd", "isub", "update", "imul", "iadd_scalar", "imul_scalar", "ipow",
-                            "clear", "refresh", "copy", "addcons", "toenum", "bin", "binscalar", "neg", "pow", "div",
+                            "clear", "refresh", "copy", "new", "addcons", "toenum", "bin", "binscalar", "neg", "pow", "div",
                             "value", "mulraise", "poke", "ctor", "info"}
 
 \* ---- clauses ----
